@@ -64,14 +64,14 @@ def probe_class():
             self._inside = 0
 
         @rpc_method
-        def hit(self, c, seq):
+        def hit(self, c, via, seq):
             me = _me()
-            _log("enter", me, self._oid, c, seq)
+            _log("enter", me, self._oid, c, via, seq)
             self._inside += 1          # every line below is a yield point (trace_funcs)
             depth = self._inside
-            mark = (c, seq)
+            mark = (c, via, seq)
             self._inside -= 1
-            _log("exit", me, self._oid, c, seq, depth)
+            _log("exit", me, self._oid, c, via, seq, depth)
             return mark
 
     _PROBE = Probe
@@ -136,10 +136,44 @@ def taps():
 
     saved = []
 
+    _ABSENT = object()
+
     def patch(obj, name, new):
-        old = obj.__dict__[name] if isinstance(obj, type) else getattr(obj, name)
+        old = obj.__dict__.get(name, _ABSENT) if isinstance(obj, type) else getattr(obj, name)
         saved.append((obj, name, old))
         setattr(obj, name, new)
+
+    rejecting = set()       # idents of worker threads that are inside _reject_remaining_requests
+    delivering = {}         # ident -> key of the probe request this thread is handing to MessageRouter.deliver_message
+
+    def oid_of(name) -> int:
+        try:
+            return int(str(name)[len(PROBE_PREFIX):])
+        except ValueError:
+            return 99
+
+    class TapDict(dict):
+        """`MessageRouter._address_to_messagehandler_map`: handler lookup and unregistration logged at the instant they
+        happen (inside `_address_to_messagehandler_map_lock`)."""
+
+        def get(self, key, default=None):
+            r = dict.get(self, key, default)
+            k = delivering.get(_rt.get_ident())
+            if k is not None and str(key).startswith(PROBE_PREFIX):
+                conn = current_conn.get(_rt.get_ident())
+                via = None if conn is None else (conn.peer_context_name, conn._message_router.context_name)
+                _log("lookup", _me(), k, r is not None, via)
+            return r
+
+        def __delitem__(self, key):
+            dict.__delitem__(self, key)
+            if str(key).startswith(PROBE_PREFIX):
+                _log("unregister", oid_of(key))
+
+        def pop(self, key, *a):
+            if str(key).startswith(PROBE_PREFIX) and key in self:
+                _log("unregister", oid_of(key))
+            return dict.pop(self, key, *a)
 
     class TapDeque(collections.deque):
         """`_RpcThread._fifo` with its mutations logged at the instant they happen (inside the `_cv` critical section)."""
@@ -163,7 +197,7 @@ def taps():
             x = collections.deque.popleft(self)
             k = _hit_key(x)
             if k:
-                _log("fifo-", _me(), k, self._snap(), "popleft")
+                _log("reject" if _rt.get_ident() in rejecting else "fifo-", _me(), k, self._snap(), "popleft")
             return x
 
         def pop(self):
@@ -278,16 +312,88 @@ def taps():
 
     patch(M._PeerTcpConnection, "_process_message", process_message)
 
-    # 5. RpcObjectManager.handle_message / _RpcThread.push_rpc_request (delivering thread identity)
+    # 4b. local delivery: handler lookup (MessageRouter.deliver_message) in the delivering thread
+    orig_rinit = M.MessageRouter.__dict__["__init__"]
+
+    def router_init(self, *a, **kw):
+        orig_rinit(self, *a, **kw)
+        m = getattr(self, "_address_to_messagehandler_map", None)
+        if type(m) is dict and not m:
+            self._address_to_messagehandler_map = TapDict()
+        else:
+            _log("tap-missing", "MessageRouter._address_to_messagehandler_map is not an empty dict")
+
+    patch(M.MessageRouter, "__init__", router_init)
+
+    orig_deliver = M.MessageRouter.__dict__["deliver_message"]
+
+    def deliver_message(self, message):
+        k = _hit_key(message)
+        if not k:
+            return orig_deliver(self, message)
+        me = _rt.get_ident()
+        delivering[me] = k
+        try:
+            return orig_deliver(self, message)
+        finally:
+            delivering.pop(me, None)
+
+    patch(M.MessageRouter, "deliver_message", deliver_message)
+
+    # 5. RpcObjectManager.handle_message / _RpcThread.push_rpc_request (delivering thread identity; refusal when stopped)
     orig_hm = R.RpcObjectManager.__dict__["handle_message"]
 
     def handle_message(self, message):
         k = _hit_key(message)
-        if k:
-            conn = current_conn.get(_rt.get_ident())
-            via = None if conn is None else (conn.peer_context_name, conn._message_router.context_name)
-            _log("handle", _me(), k, via)
-        return orig_hm(self, message)
+        if not k:
+            return orig_hm(self, message)
+        delivering.pop(_rt.get_ident(), None)      # the lookup is over
+        try:
+            return orig_hm(self, message)
+        except BaseException as e:
+            if type(e).__name__ == "QMI_MessageDeliveryException":
+                _log("push-refused", _me(), k)
+            raise
+
+    # `_running = False` under `_stop_lock` (RpcObjectManager.stop): logged at the instant of the write
+    def _get_running(self):
+        return self.__dict__.get("_running_value", False)
+
+    def _set_running(self, v):
+        was = self.__dict__.get("_running_value", False)
+        self.__dict__["_running_value"] = v
+        if was and not v and self.address.object_id.startswith(PROBE_PREFIX):
+            _log("stopmark", oid_of(self.address.object_id))
+
+    patch(R.RpcObjectManager, "_running", property(_get_running, _set_running))
+
+    # the worker is asked to shut down / leaves its loop / rejects what is left
+    def obj_of(thread):
+        return oid_of(getattr(getattr(thread, "_rpc_object", None), "_name", ""))
+
+    orig_reqsd = R._RpcThread.__dict__["_request_shutdown"]
+
+    def request_shutdown(self):
+        if str(getattr(getattr(self, "_rpc_object", None), "_name", "")).startswith(PROBE_PREFIX):
+            _log("shutdown", obj_of(self))
+        return orig_reqsd(self)
+
+    patch(R._RpcThread, "_request_shutdown", request_shutdown)
+
+    orig_reject = R._RpcThread.__dict__["_reject_remaining_requests"]
+
+    def reject_remaining(self):
+        probe = str(getattr(getattr(self, "_rpc_object", None), "_name", "")).startswith(PROBE_PREFIX)
+        if probe:
+            _log("leave", _me(), obj_of(self))
+        me = _rt.get_ident()
+        rejecting.add(me)
+        try:
+            return orig_reject(self)
+        finally:
+            rejecting.discard(me)
+
+    patch(R._RpcThread, "_reject_remaining_requests", reject_remaining)
 
     patch(R.RpcObjectManager, "handle_message", handle_message)
 
@@ -359,66 +465,97 @@ def taps():
         else:
             del D.THREADING_SHIM.__dict__["Thread"]
         for obj, name, old in reversed(saved):
-            setattr(obj, name, old)
+            if old is _ABSENT:
+                delattr(obj, name)
+            else:
+                setattr(obj, name, old)
 
 
 # ---------------------------------------------------------------------------
 # scenarios
 # ---------------------------------------------------------------------------
 
-CALL_KINDS = ("b", "n", "g", "gn", "s", "sn", "q", "L", "U", "F")      # everything that is a request to the object
+CALL_KINDS = ("b", "n", "t", "g", "gn", "s", "sn", "q", "L", "U", "F")      # everything that is a request to the object
 NONBLOCKING = ("n", "gn", "sn")
+
+
+def op_via(cal, op) -> int:
+    """the context whose proxy the caller uses for this op (default: the caller's own context)"""
+    return op[2] if len(op) > 2 else cal["ctx"]
 
 
 def gen_scenario(rng, big: bool = False) -> dict:
     """contexts 1..3 (context 0 always hosts object 0), objects 1..2, callers 1..6.  A caller's program is a list of
-    [kind, o]:  b/n = blocking / non-blocking `hit`;  g/gn = `get_name`;  s/sn = `get_signals`;  q = `is_locked()`;
-    L/U/F = `lock()` / `unlock()` / `force_unlock()`;  and [w, j] = wait for the j-th non-blocking call.
-    Per object at most one caller (the lock owner) uses L/U/F, as a well-formed state machine (U and F only while it holds
-    the lock), so `force_unlock` always meets a locked object; calls of other callers may be refused while it is locked."""
+    [kind, o] or [kind, o, via]:  b/n = blocking / non-blocking `hit`;  t = blocking `hit` with a tiny `rpc_timeout` (the
+    caller may give up and go on while the request is still under way);  g/gn = `get_name`;  s/sn = `get_signals`;
+    q = `is_locked()`;  L/U/F = `lock()` / `unlock()` / `force_unlock()`;  and [w, j] = wait for the j-th non-blocking call.
+    `via` = the context whose proxy is used (a thread may alternate between a local and a peer proxy of one object).
+    Per object at most one (caller, via) (the lock owner) uses L/U/F, as a well-formed state machine.
+    `removals` = [[o, delay], …]: a remover thread removes object o from its context after `delay` scheduler steps, while
+    the callers are running."""
     K = rng.choice([1, 2, 2, 3, 3])
-    n_obj = rng.choice([1, 1, 2])
+    n_obj = rng.choice([1, 1, 2, 2])
     homes = [0] + [rng.randrange(K) for _ in range(n_obj - 1)]
     n_call = rng.choice([1, 2, 2, 3, 3, 4, 5, 6])
     owner = {o: (rng.randrange(n_call) if rng.random() < 0.6 else None) for o in range(n_obj)}
     callers = []
     for ci in range(n_call):
         k = rng.randrange(K)
+        alternating = K > 1 and rng.random() < 0.25      # this thread uses proxies of several contexts
+        hopper = n_obj > 1 and rng.random() < 0.3        # this thread strictly alternates between the objects
         prog, nfut = [], 0
         held = {o: False for o in range(n_obj)}
+        turn = [0]
+
+        def pick_obj():
+            if hopper:
+                turn[0] += 1
+                return turn[0] % n_obj
+            return rng.randrange(n_obj)
+
+        def mk(kind, o):
+            if alternating and kind not in ("L", "U", "F"):
+                return [kind, o, rng.randrange(K)]
+            return [kind, o]
 
         def nb_kind():
             r = rng.random()
             return "n" if r < 0.7 else ("gn" if r < 0.85 else "sn")
 
         for _ in range(rng.randint(1, 6 if big else 4)):
-            o = rng.randrange(n_obj)
+            o = pick_obj()
             r = rng.random()
             if r < 0.20:
-                prog.append([rng.choice(["b", "b", "g", "s"]), o])
+                prog.append(mk(rng.choice(["b", "b", "g", "s", "t"]), o))
             elif r < 0.40:
-                prog.append([nb_kind(), o]); nfut += 1
+                prog.append(mk(nb_kind(), o)); nfut += 1
             elif r < 0.65:                      # burst of non-blocking calls, some never waited for
                 for _ in range(rng.randint(2, 4)):
-                    prog.append([nb_kind(), o if rng.random() < 0.8 else rng.randrange(n_obj)]); nfut += 1
+                    prog.append(mk(nb_kind(), o if rng.random() < 0.8 else pick_obj())); nfut += 1
             elif r < 0.85:                      # a lock-protocol call right behind queued non-blocking calls
                 if rng.random() < 0.7:
                     for _ in range(rng.randint(1, 3)):
-                        prog.append([nb_kind(), o]); nfut += 1
+                        prog.append(mk(nb_kind(), o)); nfut += 1
                 if owner[o] == ci:
                     if not held[o]:
                         prog.append(["L", o]); held[o] = True
                     else:
                         prog.append([rng.choice(["U", "U", "F"]), o]); held[o] = False
                 else:
-                    prog.append(["q", o])
+                    prog.append(mk("q", o))
             elif nfut:
                 prog.append(["w", rng.randrange(nfut)])
             else:
-                prog.append(["b", o])
+                prog.append(mk("b", o))
         prog = prog[:12]
         callers.append({"ctx": k, "prog": prog})
-    return sanitize({"contexts": K, "objects": homes, "callers": callers})
+    removals = []
+    if rng.random() < 0.25:
+        for o in range(n_obj):
+            if rng.random() < 0.7:
+                removals.append([o, rng.choice([0, 5, 20, 60, 150, 400])])
+    return sanitize({"contexts": K, "objects": homes, "callers": callers, "removals": removals,
+                     "share": rng.random() < 0.25, "eager": rng.choice([0.0, 0.0, 0.3])})
 
 
 def sanitize(scn) -> dict:
@@ -437,9 +574,14 @@ def sanitize(scn) -> dict:
                 if (kind == "L") == held[o]:
                     continue
                 held[o] = (kind == "L")
+                op = op[:2]
             prog.append(list(op))
         out.append({"ctx": cal["ctx"], "prog": prog})
-    return {"contexts": scn["contexts"], "objects": list(scn["objects"]), "callers": out}
+    locks = any(op[0] in ("L", "U", "F") for c in out for op in c["prog"])
+    return {"contexts": scn["contexts"], "objects": list(scn["objects"]), "callers": out,
+            "removals": [list(r) for r in scn.get("removals", [])],
+            "share": bool(scn.get("share")) and not locks,           # callers of one context share one proxy per object
+            "eager": float(scn.get("eager", 0.0))}                   # probability that a pending timed wait fires early
 
 
 def scenario_is_nontrivial(scn) -> bool:
@@ -450,14 +592,16 @@ def scenario_is_nontrivial(scn) -> bool:
 def make_body(scn):
     homes = scn["objects"]
     K = scn["contexts"]
+    removed_objs = {r[0] for r in scn.get("removals", [])}
 
     def body(w):
         Probe = probe_class()
         servers = set(homes)
         ctxs = [w.context(f"c{k}", server=(k in servers)) for k in range(K)]
+        own_proxy = {}
         for o, h in enumerate(homes):
-            ctxs[h].make_rpc_object(f"{PROBE_PREFIX}{o}", Probe, o)
-        need = sorted({(c["ctx"], op[1]) for c in scn["callers"] for op in c["prog"] if op[0] in CALL_KINDS})
+            own_proxy[o] = ctxs[h].make_rpc_object(f"{PROBE_PREFIX}{o}", Probe, o)
+        need = sorted({(op_via(c, op), op[1]) for c in scn["callers"] for op in c["prog"] if op[0] in CALL_KINDS})
         connected = set()
         desc = {}
         for k, o in need:
@@ -467,19 +611,29 @@ def make_body(scn):
                 connected.add((k, h))
             desc[(k, o)] = ctxs[k].make_peer_context_proxy(f"c{h}").get_rpc_object_descriptor(f"{PROBE_PREFIX}{o}")
         _log("setup-done")
+        w.sched.eager_timeouts = float(scn.get("eager", 0.0))     # only while the callers run (not during the handshakes)
         n_calls = [0]
+        shared = {(k, o): ctxs[k].make_proxy(desc[(k, o)]) for (k, o) in need} if scn.get("share") else None
 
         def caller_fn(ci, cal):
-            k = cal["ctx"]
-            # one proxy per (caller thread, object): lock tokens are per proxy
-            px = {o: ctxs[k].make_proxy(desc[(k, o)]) for (kk, o) in need if kk == k}
+            # one proxy per (caller thread, proxy context, object): lock tokens are per proxy (unless the scenario shares them)
+            px = shared if shared is not None else {
+                (k, o): ctxs[k].make_proxy(desc[(k, o)])
+                for (k, o) in {(op_via(cal, op), op[1]) for op in cal["prog"] if op[0] in CALL_KINDS}}
 
-            def refused(e):
-                return "locked" in str(e)
+            def classify(e, o):
+                """an exception a scripted call may legitimately get: refused by the lock, or the object is being removed"""
+                if "locked" in str(e):
+                    return "locked"
+                if type(e).__name__ == "QMI_MessageDeliveryException" and o in removed_objs:
+                    return "undelivered"
+                if type(e).__name__ == "QMI_RpcTimeoutException":
+                    return "timeout"
+                return None
 
-            def check(kind, o, seq, r):
-                if kind in ("b", "n"):
-                    return tuple(r) == (ci, seq)
+            def check(kind, k, o, seq, r):
+                if kind in ("b", "n", "t"):
+                    return tuple(r) == (ci, k, seq)
                 if kind in ("g", "gn"):
                     return r == f"{PROBE_PREFIX}{o}"
                 if kind in ("s", "sn"):
@@ -489,73 +643,85 @@ def make_body(scn):
             def run():
                 me = _rt.get_ident()
                 nxt = collections.Counter()
+                gnxt = collections.Counter()
                 futs = []
                 bad = []
+
+                def outcome(kind, k, o, seq, fn):
+                    try:
+                        r = fn()
+                        if not check(kind, k, o, seq, r):
+                            bad.append((kind, ci, k, o, seq, repr(r)))
+                        _log("result", ci, (ci, k, o, seq), "ok")
+                    except D.SchedAbort:
+                        raise
+                    except Exception as e:  # noqa
+                        c = classify(e, o)
+                        if c is None or (c == "timeout" and kind != "t"):
+                            bad.append((kind, ci, k, o, seq, f"{type(e).__name__}: {e}"))
+                        _log("result", ci, (ci, k, o, seq), c or "error")
+
                 for op in cal["prog"]:
                     kind = op[0]
                     if kind == "w":
                         j = op[1]
                         if j < len(futs) and not futs[j][2]:
                             futs[j][2] = True
-                            _, (fk, fo, fseq), _ = futs[j]
-                            try:
-                                r = futs[j][0].wait()
-                                if not check(fk, fo, fseq, r):
-                                    bad.append(("w", fk, fo, fseq, repr(r)))
-                            except Exception as e:  # noqa
-                                if not refused(e):
-                                    bad.append(("w", fk, fo, fseq, f"{type(e).__name__}: {e}"))
+                            fut, (fk, fvia, fo, fseq), _ = futs[j]
+                            outcome(fk, fvia, fo, fseq, fut.wait)
                         continue
                     o = op[1]
-                    seq = nxt[o]
-                    nxt[o] += 1
+                    k = op_via(cal, op)
+                    seq = nxt[(k, o)]
+                    nxt[(k, o)] += 1
+                    gseq = gnxt[o]
+                    gnxt[o] += 1
                     n_calls[0] += 1
-                    _log("call", ci, o, seq, kind)
-                    RUN.intent[me] = (ci, o, seq)
-                    p = px[o]
-                    try:
-                        if kind == "b":
-                            r = p.hit(ci, seq)
-                        elif kind == "n":
-                            futs.append([p.rpc_nonblocking.hit(ci, seq), (kind, o, seq), False]); continue
-                        elif kind == "g":
-                            r = p.get_name()
-                        elif kind == "gn":
-                            futs.append([p.rpc_nonblocking.get_name(), (kind, o, seq), False]); continue
-                        elif kind == "s":
-                            r = p.get_signals()
-                        elif kind == "sn":
-                            futs.append([p.rpc_nonblocking.get_signals(), (kind, o, seq), False]); continue
-                        elif kind == "q":
-                            r = p.is_locked()
-                        elif kind == "L":
-                            r = p.lock()
-                        elif kind == "U":
-                            r = p.unlock()
-                        elif kind == "F":
-                            r = p.force_unlock()
-                        else:
-                            raise ValueError(kind)
-                        if not check(kind, o, seq, r):
-                            bad.append((kind, ci, o, seq, repr(r)))
-                    except D.SchedAbort:
-                        raise
-                    except Exception as e:  # noqa
-                        if not refused(e):
-                            bad.append((kind, ci, o, seq, f"{type(e).__name__}: {e}"))
+                    _log("call", ci, k, o, seq, kind, gseq)
+                    RUN.intent[me] = (ci, k, o, seq)
+                    p = px[(k, o)]
+                    if kind in NONBLOCKING:
+                        try:
+                            nb = p.rpc_nonblocking
+                            fut = (nb.hit(ci, k, seq) if kind == "n" else nb.get_name() if kind == "gn" else nb.get_signals())
+                            futs.append([fut, (kind, k, o, seq), False])
+                        except D.SchedAbort:
+                            raise
+                        except Exception as e:  # noqa
+                            bad.append((kind, ci, k, o, seq, f"{type(e).__name__}: {e}"))
+                        continue
+                    fn = {"b": lambda: p.hit(ci, k, seq), "t": lambda: p.hit(ci, k, seq, rpc_timeout=0.001), "g": p.get_name, "s": p.get_signals, "q": p.is_locked,
+                          "L": p.lock, "U": p.unlock, "F": p.force_unlock}[kind]
+                    outcome(kind, k, o, seq, fn)
                 return bad
             return run
 
+        def remover_fn(o, delay):
+            def run():
+                for _ in range(delay):
+                    D.SCHED.yield_point("remover.wait")
+                _log("removing", o)
+                ctxs[homes[o]].remove_rpc_object(own_proxy[o])
+                _log("removed", o)
+                return []
+            return run
+
         ths = [w.spawn(caller_fn(ci, cal), f"caller{ci}") for ci, cal in enumerate(scn["callers"])]
+        ths += [w.spawn(remover_fn(o, delay), f"remover{o}") for o, delay in scn.get("removals", [])]
         for t in ths:
             t.join()
+        w.sched.eager_timeouts = 0.0
+
+        def settled():
+            return sum(1 for e in w.sched.events if e[0] in ("exec-exit", "reject", "push-refused")
+                       or (e[0] == "lookup" and not e[3]))
+
         # drain: calls nobody waits for are still under way; a timed sleep fires only when nothing else can run
         for _ in range(40):
-            done = sum(1 for e in w.sched.events if e[0] == "exec-exit")
-            if done >= n_calls[0]:
+            if settled() >= n_calls[0]:
                 break
             D.TIME_SHIM.sleep(0.05)
-        _log("drained", sum(1 for e in w.sched.events if e[0] == "exec-exit"), n_calls[0])
+        _log("drained", settled(), n_calls[0])
         return [(t.value, None if t.exc is None else f"{type(t.exc).__name__}: {t.exc}") for t in ths]
 
     return body
@@ -583,7 +749,11 @@ def run_impl(seed, scn, policy="weighted", change_points=None, extra_trace=False
 def _fmt(keys) -> str:
     if not keys:
         return "-"
-    return ",".join("?" if k == "?" else f"{k[0]}:{k[1]}:{k[2]}" for k in keys)
+    return ",".join("?" if k == "?" else ":".join(str(v) for v in k) for k in keys)
+
+
+def _rq(k) -> str:
+    return " ".join(str(v) for v in k)
 
 
 def to_lines(scn, events):
@@ -602,63 +772,87 @@ def to_lines(scn, events):
 
     lines, outs = ["init"], ["ok"]
     for ci, cal in enumerate(scn["callers"]):
-        lines.append(f"thread {ci} {cal['ctx']}"); outs.append("ok")
+        lines.append(f"thread {ci}"); outs.append("ok")
+    for k in range(scn["contexts"]):
+        lines.append(f"ctx {k}"); outs.append("ok")
     for o, h in enumerate(homes):
         lines.append(f"object {o} {h}"); outs.append("ok")
     issuer = {}
     via = {}
-    finished = collections.defaultdict(list)
+    fin = collections.defaultdict(lambda: {"executed": [], "by": [], "rejected": [], "refused": []})
+    keyed = ("issue", "enqR", "send", "lookup", "push-refused", "fifo+", "fifo-", "reject", "exec-enter", "exec-exit")
     for ev in events:
         t = ev[0]
-        if t in ("issue", "enqR", "send", "handle", "fifo+", "fifo-", "exec-enter", "exec-exit") and ev[2] == "?":
+        if t in keyed and ev[2] == "?":
             # a request to the object that no scripted call accounts for
             lines.append(f"unaccounted-request-at-{t}"); outs.append("ok")
             continue
         if t == "start":
             lines.append(f"start {ev[1]} {tid(ev[2])}"); outs.append("ok inv")
         elif t == "issue":
-            c, o, r = ev[2]
             issuer[ev[2]] = ev[1]
-            lines.append(f"issue {c} {o} {r}"); outs.append("ok inv")
+            lines.append(f"issue {_rq(ev[2])}"); outs.append("ok inv")
         elif t == "enqR":
-            c, o, r = ev[2]
-            lines.append(f"enqR {c} {o} {r}"); outs.append(f"ok ready={_fmt(ev[4])} inv")
+            lines.append(f"enqR {_rq(ev[2])}"); outs.append(f"ok ready={_fmt(ev[4])} inv")
         elif t == "send":
-            c, o, r = ev[2]
-            lines.append(f"send {cidx(ev[3])} {c} {o} {r}"); outs.append("ok inv")
+            lines.append(f"send {cidx(ev[3])} {_rq(ev[2])}"); outs.append("ok inv")
         elif t == "send-failed":
             lines.append(f"send-failed {ev[3]}"); outs.append("ok")
-        elif t == "handle":
-            via[ev[2]] = ev[3]
-        elif t == "fifo+":
-            c, o, r = ev[2]
-            if issuer.get(ev[2]) == ev[1]:
-                lines.append(f"enqL {c} {o} {r}")
+        elif t == "lookup":
+            key, found, v = ev[2], ev[3], ev[4]
+            via[key] = v
+            if issuer.get(key) == ev[1] and v is None:
+                lines.append(f"lookL {_rq(key)}")
             else:
-                v = via.get(ev[2])
-                k, d = (cidx(v[0]), cidx(v[1])) if v else (scn["callers"][c]["ctx"] if c < len(scn["callers"]) else 99,
-                                                          homes[o] if o < len(homes) else 99)
-                lines.append(f"deliver {k} {d} {c} {o} {r}")
-            outs.append(f"ok fifo={_fmt(ev[3])} inv")
+                k, d = (cidx(v[0]), cidx(v[1])) if v else (key[1], homes[key[2]] if key[2] < len(homes) else 99)
+                lines.append(f"lookW {k} {d} {_rq(key)}")
+            outs.append("ok held inv" if found else "ok refused inv")
+            if not found:
+                fin[key[2]]["refused"].append(key)
+        elif t in ("fifo+", "push-refused"):
+            key = ev[2]
+            v = via.get(key)
+            if issuer.get(key) == ev[1] and v is None:
+                lines.append(f"pushL {_rq(key)}")
+            else:
+                d = cidx(v[1]) if v else (homes[key[2]] if key[2] < len(homes) else 99)
+                lines.append(f"pushW {d} {_rq(key)}")
+            if t == "fifo+":
+                outs.append(f"ok fifo={_fmt(ev[3])} inv")
+            else:
+                outs.append("ok refused inv")
+                fin[key[2]]["refused"].append(key)
         elif t == "fifo-":
-            c, o, r = ev[2]
-            lines.append(f"pop {tid(ev[1])} {o} {c} {r}"); outs.append(f"ok fifo={_fmt(ev[3])} inv")
+            c, k, o, r = ev[2]
+            lines.append(f"pop {tid(ev[1])} {o} {c} {k} {r}"); outs.append(f"ok fifo={_fmt(ev[3])} inv")
+        elif t == "reject":
+            c, k, o, r = ev[2]
+            fin[o]["rejected"].append(ev[2])
+            lines.append(f"reject {tid(ev[1])} {o} {c} {k} {r}"); outs.append(f"ok fifo={_fmt(ev[3])} inv")
         elif t in ("enter", "exit"):          # the probe's own record of `hit` (observation)
-            lines.append(f"{t} {tid(ev[1])} {ev[2]} {ev[3]} {ev[4]}"); outs.append("ok")
+            lines.append(f"{t} {tid(ev[1])} {ev[2]} {ev[3]} {ev[4]} {ev[5]}"); outs.append("ok")
         elif t == "exec-enter":               # the request starts to execute (any method / lock action)
-            c, o, r = ev[2]
-            lines.append(f"enter {tid(ev[1])} {o} {c} {r}"); outs.append("ok")
+            c, k, o, r = ev[2]
+            lines.append(f"enter {tid(ev[1])} {o} {c} {k} {r}"); outs.append("ok")
         elif t == "exec-exit":
-            c, o, r = ev[2]
-            finished[o].append((ev[2], tid(ev[1])))
-            lines.append(f"finish {tid(ev[1])} {o} {c} {r}"); outs.append("ok inv")
+            c, k, o, r = ev[2]
+            fin[o]["executed"].append(ev[2]); fin[o]["by"].append(tid(ev[1]))
+            lines.append(f"finish {tid(ev[1])} {o} {c} {k} {r}"); outs.append("ok inv")
+        elif t == "unregister":
+            lines.append(f"unreg {ev[1]}"); outs.append("ok inv")
+        elif t == "stopmark":
+            lines.append(f"stopmark {ev[1]}"); outs.append("ok inv")
+        elif t == "shutdown":
+            lines.append(f"shutdown {ev[1]}"); outs.append("ok inv")
+        elif t == "leave":
+            lines.append(f"leave {tid(ev[1])} {ev[2]}"); outs.append("ok inv")
         elif t in ("fifo?", "tap-missing"):
-            lines.append(f"unknown-fifo-operation {ev[-1]}".replace(" ", "_")); outs.append("ok")
+            lines.append(f"unknown-operation {ev[-1]}".replace(" ", "_")); outs.append("ok")
     for o in range(len(homes)):
         lines.append(f"final {o}")
-        ks = [k for k, _ in finished[o]]
-        by = [str(w) for _, w in finished[o]]
-        outs.append(f"executed={_fmt(ks)} by={','.join(by) if by else '-'} cur=-")
+        f = fin[o]
+        outs.append(f"executed={_fmt(f['executed'])} by={','.join(map(str, f['by'])) if f['by'] else '-'} cur=- "
+                    f"rejected={_fmt(f['rejected'])} refused={_fmt(f['refused'])}")
     return lines, outs
 
 
@@ -674,59 +868,84 @@ def oracle(scn, events):
     """Returns (clause, route, request class, detail) of the first violation, or None.
 
     Works on `exec-enter`/`exec-exit` (wrappers around `_handle_method_rpc_request` / `_handle_lock_rpc_request`: every
-    method, every lock action, whichever thread runs them) and on the `call` records the scripted callers write before
-    each proxy call (their own issue order).  The probe's own depth counter is a second witness for overlaps."""
+    method, every lock action, whichever thread runs them), on the `call`/`result` records the scripted callers write
+    around each proxy call (their own issue order and what they got back) and on the remover's `removed` record.
+    The probe's own depth counter is a second witness for overlaps.
+
+    `order` is per (caller thread, proxy context, object).  A violation of the order per (caller thread, object) that is
+    *not* a violation per route (`order-across-routes`) is reported only if nothing else is wrong."""
     homes = scn["objects"]
 
-    def route(c, o):
+    def route(k, o):
         try:
-            return "local" if scn["callers"][c]["ctx"] == homes[o] else "remote"
+            return "local" if k == homes[o] else "remote"
         except Exception:
             return "unknown"
 
-    called = set()
+    called = {}
     inside = collections.defaultdict(list)
     nxt = collections.Counter()
+    gnxt = collections.Counter()
     seen = set()
+    started = set()
     threads = collections.defaultdict(list)
+    removed = set()
+    secondary = None
     for i, ev in enumerate(events):
         if ev[0] == "call":
-            called.add((ev[1], ev[2], ev[3]))
+            called[(ev[1], ev[2], ev[3], ev[4])] = ev[6]
+        elif ev[0] == "removed":
+            removed.add(ev[1])
+        elif ev[0] == "result":
+            key, res = ev[2], ev[3]
+            if res in ("undelivered", "error") and key in started:
+                return ("executed-although-error-reply", route(key[1], key[2]), "any",
+                        f"event {i}: the caller of {key} got a delivery error, but the call was executed")
         elif ev[0] == "exec-enter":
             _, th, key, what = ev
             cls = _class_of(what)
             if key == "?":
                 return ("phantom-execution", "unknown", cls, f"event {i}: a request ({what}) executes that no call accounts for")
-            c, o, seq = key
+            c, k, o, seq = key
             if inside[o]:
-                return ("overlap", route(c, o), cls,
+                return ("overlap", route(k, o), cls,
                         f"event {i}: {key} ({what}) starts in {th} while {inside[o]} is executing on object {o}")
             inside[o].append((key, th, what))
+            if o in removed:
+                return ("executed-after-removal", route(k, o), cls,
+                        f"event {i}: {key} ({what}) executes after remove_rpc_object({o}) returned")
             if th not in threads[o]:
                 threads[o].append(th)
                 if len(threads[o]) > 1:
-                    return ("second-thread", route(c, o), cls, f"event {i}: {key} ({what}): object {o} executed by {threads[o]}")
+                    return ("second-thread", route(k, o), cls, f"event {i}: {key} ({what}): object {o} executed by {threads[o]}")
             if key not in called:
-                return ("phantom-execution", route(c, o), cls, f"event {i}: {key} ({what}) executed but never called")
+                return ("phantom-execution", route(k, o), cls, f"event {i}: {key} ({what}) executed but never called")
             if key in seen:
-                return ("duplicate-execution", route(c, o), cls, f"event {i}: {key} ({what}) executed twice")
+                return ("duplicate-execution", route(k, o), cls, f"event {i}: {key} ({what}) executed twice")
             seen.add(key)
-            if seq != nxt[(c, o)]:
-                return ("order", route(c, o), cls,
-                        f"event {i}: caller {c} object {o}: call #{seq} ({what}) executed when #{nxt[(c, o)]} was next in "
-                        f"issue order")
-            nxt[(c, o)] += 1
+            started.add(key)
+            if seq != nxt[(c, k, o)]:
+                return ("order", route(k, o), cls,
+                        f"event {i}: caller {c} via context {k} object {o}: call #{seq} ({what}) executed when "
+                        f"#{nxt[(c, k, o)]} was next in issue order")
+            nxt[(c, k, o)] += 1
+            g = called[key]
+            if g < gnxt[(c, o)] and secondary is None:
+                secondary = ("order-across-routes", "mixed", "any",
+                             f"event {i}: caller {c} object {o}: its call #{g} to this object (via context {k}, {what}) "
+                             f"executes after a later call #{gnxt[(c, o)] - 1} of the same thread made through another context")
+            gnxt[(c, o)] = max(gnxt[(c, o)], g + 1)
         elif ev[0] == "exec-exit":
             _, th, key = ev
             if key == "?":
                 continue
-            o = key[1]
+            o = key[2]
             if not inside[o] or inside[o][-1][0] != key:
-                return ("overlap", route(key[0], o), "any", f"event {i}: {key} finished while inside={inside[o]}")
+                return ("overlap", route(key[1], o), "any", f"event {i}: {key} finished while inside={inside[o]}")
             inside[o].pop()
-        elif ev[0] == "exit" and ev[5] != 1:
-            return ("overlap", route(ev[3], ev[2]), "hit", f"event {i}: probe.hit left with depth {ev[5]}")
-    return None
+        elif ev[0] == "exit" and ev[6] != 1:
+            return ("overlap", route(ev[4], ev[2]), "hit", f"event {i}: probe.hit left with depth {ev[6]}")
+    return secondary
 
 
 def completion_problem(out, events, scn):
@@ -762,7 +981,7 @@ def _sig(v):
 
 # ---------------------------------------------------------------------------
 
-FIXED_SCENARIOS = [
+FIXED_SCENARIOS_RAW = [
     {"contexts": 1, "objects": [0], "callers": [{"ctx": 0, "prog": [["n", 0], ["n", 0], ["n", 0], ["b", 0]]}]},
     {"contexts": 2, "objects": [0], "callers": [{"ctx": 1, "prog": [["n", 0], ["n", 0], ["n", 0], ["b", 0]]}]},
     {"contexts": 2, "objects": [0], "callers": [{"ctx": 0, "prog": [["n", 0], ["n", 0], ["b", 0]]},
@@ -778,11 +997,38 @@ FIXED_SCENARIOS = [
                                                  {"ctx": 0, "prog": [["n", 0], ["q", 0], ["n", 0], ["q", 0]]}]},
     {"contexts": 2, "objects": [0], "callers": [{"ctx": 1, "prog": [["n", 0], ["n", 0], ["L", 0], ["n", 0], ["n", 0], ["F", 0]]},
                                                  {"ctx": 0, "prog": [["n", 0], ["n", 0], ["q", 0]]}]},
+    # one thread alternating between a peer proxy and a local proxy of the same object (order per route only)
+    {"contexts": 2, "objects": [0], "callers": [{"ctx": 0, "prog": [["n", 0, 1], ["n", 0, 0], ["n", 0, 1], ["n", 0, 0], ["b", 0, 1]]}]},
+    {"contexts": 3, "objects": [0, 0], "callers": [{"ctx": 1, "prog": [["n", 0, 1], ["n", 1, 2], ["n", 0, 2], ["n", 1, 1], ["b", 0, 0], ["b", 1, 0]]},
+                                                    {"ctx": 0, "prog": [["n", 0], ["n", 1], ["n", 0], ["n", 1]]}]},
+    # one thread hopping between two objects (order per object, none across objects)
+    {"contexts": 2, "objects": [0, 1], "callers": [{"ctx": 0, "prog": [["n", 0], ["n", 1], ["n", 0], ["n", 1], ["n", 0], ["b", 1], ["b", 0]]},
+                                                    {"ctx": 1, "prog": [["n", 1], ["n", 0], ["n", 1], ["n", 0], ["w", 0]]}]},
+    # the object is removed while calls are queued / under way (local and remote callers)
+    {"contexts": 2, "objects": [0], "removals": [[0, 20]],
+     "callers": [{"ctx": 0, "prog": [["n", 0], ["n", 0], ["n", 0], ["n", 0], ["b", 0], ["b", 0]]},
+                 {"ctx": 1, "prog": [["n", 0], ["n", 0], ["n", 0], ["b", 0], ["n", 0], ["b", 0]]}]},
+    {"contexts": 2, "objects": [0, 1], "removals": [[1, 60], [0, 150]],
+     "callers": [{"ctx": 1, "prog": [["n", 0], ["n", 1], ["n", 0], ["n", 1], ["b", 0], ["b", 1], ["w", 1]]},
+                 {"ctx": 0, "prog": [["b", 1], ["n", 0], ["n", 1], ["b", 0], ["n", 1]]}]},
+    {"contexts": 1, "objects": [0], "removals": [[0, 0]],
+     "callers": [{"ctx": 0, "prog": [["n", 0], ["n", 0], ["b", 0]]}, {"ctx": 0, "prog": [["b", 0], ["b", 0]]}]},
+    # blocking calls given up by a tiny rpc_timeout while still under way, followed by further calls of the same thread
+    {"contexts": 2, "objects": [0], "eager": 0.5,
+     "callers": [{"ctx": 1, "prog": [["t", 0], ["t", 0], ["n", 0], ["t", 0], ["b", 0]]},
+                 {"ctx": 0, "prog": [["t", 0], ["n", 0], ["t", 0], ["b", 0]]}]},
+    # several threads inside the same proxy object
+    {"contexts": 2, "objects": [0], "share": True,
+     "callers": [{"ctx": 1, "prog": [["n", 0], ["n", 0], ["b", 0]]}, {"ctx": 1, "prog": [["n", 0], ["gn", 0], ["b", 0]]},
+                 {"ctx": 1, "prog": [["b", 0], ["q", 0], ["b", 0]]}]},
     # inherited standard methods interleaved with the probe's own method
     {"contexts": 2, "objects": [0], "callers": [{"ctx": 0, "prog": [["n", 0], ["gn", 0], ["n", 0], ["g", 0]]},
                                                  {"ctx": 1, "prog": [["n", 0], ["sn", 0], ["gn", 0], ["s", 0]]},
                                                  {"ctx": 1, "prog": [["n", 0], ["n", 0], ["g", 0]]}]},
 ]
+
+
+FIXED_SCENARIOS = [sanitize(x) for x in FIXED_SCENARIOS_RAW]
 
 
 class C03(Prop):
@@ -791,12 +1037,14 @@ class C03(Prop):
     driver = "drv_c03"
     modelled_not_verified = [
         "single-workerness is structural in the model (`cur o : Option Req`, `workerPop` guarded by `cur o = none`, `start` "
-        "guarded by `worker o = none`); that the code has this shape is checked by trace refinement + overlap/second-thread "
-        "oracle on explored schedules only",
-        "each caller thread issues its calls through one context (`Topo.ctxOf`); a thread alternating between proxies of two "
-        "contexts of one process is outside the model",
+        "guarded by `worker o = none`); that the code has this shape is the obligation code_shape_single_worker on "
+        "Gen/RpcShape.lean (AST translator harness/tr_rpcshape.py, trusted) plus trace refinement and the overlap/second-thread "
+        "oracle on explored schedules",
+        "order is proved and checked per (caller thread, proxy context, object); across proxies of different contexts used by "
+        "one thread it does not hold (theorem cross_route_overtake, known finding order-across-routes)",
         "TCP = reliable FIFO byte stream; asyncio ready queue = FIFO (simulated by harness/simnet.py)",
-        "object removal, connection loss, replies and lock requests are not part of this model (C01/C04)",
+        "connection loss and the content of replies are not part of this model (C01/C02/C06); a lock request is one more request "
+        "(its effect: C04); context stop is exercised only as the final clean-up of each scenario",
         "threading.Lock/Condition as specified (cooperative versions of harness/detsched.py)",
     ]
 
@@ -843,9 +1091,9 @@ class C03(Prop):
         batch.clear()
 
     def _fail(self, ctx, res, case, v, shrink=True):
-        if sum(1 for f in res.failures if f.signature == _sig(v)) >= 1:
+        if sum(1 for f in res.failures if f.signature == _sig(v)) >= 1 or len(res.failures) >= 12:
             return
-        if shrink:
+        if shrink and len(res.failures) < 5:      # shrinking costs ~100 runs; a handful of minimal replays is enough
             case, v = self._shrink(case, v)
         res.failures.append(Failure(
             signature=_sig(v),
@@ -903,7 +1151,7 @@ class C03(Prop):
         res = Result(rule="scenario = (contexts 1..3, objects 1..2 with home contexts, 1..6 caller threads each bound to a "
                           "context with a program of blocking / non-blocking calls and waits) x schedule (seed, policy); "
                           "non-trivial = at least two calls; distinct by (scenario, seed, policy)")
-        n = ctx.scale(290, 6000)
+        n = ctx.scale(290, 5000)
         batch = []
         todo = [(f"{ctx.seed}:fix{i}:{j}", s, pol) for i, s in enumerate(FIXED_SCENARIOS)
                 for j, pol in enumerate(["weighted", "pct"] * ctx.scale(1, 4))]
@@ -926,8 +1174,9 @@ class C03(Prop):
                 self._flush(batch, res)
         self._flush(batch, res)
         # malformed stream: the driver must refuse, never default
-        bad = ["", "issue", "issue 1 2", "pop x 0 0 0", "enter 1 0 0", "deliver 1 0 0 0", "nonsense 1 2 3", "final x",
-               "thread 1", "object a b", "start 0", "finish 1 0 0 -1"]
+        bad = ["", "issue", "issue 1 2 3", "pop x 0 0 0 0", "enter 1 0 0 0", "lookW 1 0 0 0 0", "nonsense 1 2 3", "final x",
+               "thread", "thread a", "ctx", "object a b", "start 0", "finish 1 0 0 0 -1", "unreg", "leave 1", "reject 1 0 0 0",
+               "pushW 0 0 0 x 0", "send 1 0 0 0"]
         got = LeanDriver(self.driver).run(["init"] + bad)
         if got[1:] != ["bad-op"] * len(bad):
             res.broken.append(Broken("correspondence", "drv_c03 malformed lines", f"expected bad-op for all of {bad}, got {got[1:]}"))
@@ -946,17 +1195,31 @@ class C03(Prop):
             for op in cal["prog"]:
                 if op[0] == "w":
                     continue
-                res.count({"b": "calls_hit_blocking", "n": "calls_hit_nonblocking", "g": "calls_get_name_blocking",
+                res.count({"b": "calls_hit_blocking", "t": "calls_hit_blocking_with_tiny_timeout", "n": "calls_hit_nonblocking", "g": "calls_get_name_blocking",
                            "gn": "calls_get_name_nonblocking", "s": "calls_get_signals_blocking",
                            "sn": "calls_get_signals_nonblocking", "q": "calls_is_locked", "L": "calls_lock",
                            "U": "calls_unlock", "F": "calls_force_unlock"}[op[0]])
                 if op[0] in NONBLOCKING:
                     res.count("calls_nonblocking_waited" if nb in waited else "calls_nonblocking_never_waited")
                     nb += 1
-                res.count("calls_local" if cal["ctx"] == homes[op[1]] else "calls_remote")
+                res.count("calls_local" if op_via(cal, op) == homes[op[1]] else "calls_remote")
+                if op_via(cal, op) != cal["ctx"]:
+                    res.count("calls_through_a_proxy_of_another_context")
         res.count("lock_request_enqueued_behind_queued_requests",
                   sum(1 for e in events if e[0] == "fifo+" and len(e[3]) >= 2 and any(
                       x[0] == "exec-enter" and x[2] == e[2] and x[3].startswith("lock:") for x in events)))
+        res.count("scenarios_with_object_removal", 1 if scn.get("removals") else 0)
+        res.count("scenarios_with_shared_proxies", 1 if scn.get("share") else 0)
+        res.count("calls_given_up_by_timeout_before_execution", sum(1 for e in events if e[0] == "result" and e[3] == "timeout"))
+        res.count("requests_rejected_by_leaving_worker", sum(1 for e in events if e[0] == "reject"))
+        res.count("requests_refused_unknown_destination", sum(1 for e in events if e[0] == "lookup" and not e[3]))
+        res.count("requests_refused_already_stopped", sum(1 for e in events if e[0] == "push-refused"))
+        res.count("requests_executed", sum(1 for e in events if e[0] == "exec-exit"))
+        routes = collections.defaultdict(set)
+        for e in events:
+            if e[0] == "call":
+                routes[(e[1], e[3])].add(e[2])
+        res.count("caller_object_pairs_using_several_routes", sum(1 for v in routes.values() if len(v) > 1))
         res.count("events_total", len(events))
         res.count("sched_steps_total", out.sched.steps)
         mx = 0
@@ -978,6 +1241,12 @@ class C03(Prop):
 
     def search(self, ctx: Ctx, broken) -> Result:
         res = Result()
+        judge0 = self._judge
+
+        def _judge(case):       # the known cross-route finding must not end the search for the cause of a broken link
+            v = judge0(case)
+            return None if v is not None and v[0] == "order-across-routes" else v
+        self_judge = _judge
         cases = [b.case for b in broken if b.case and "scn" in b.case]
         seen = set()
         # 1. the disagreeing cases themselves, shrunk with respect to "oracle fails or model cannot follow"
@@ -987,7 +1256,7 @@ class C03(Prop):
             if key in seen:
                 continue
             seen.add(key)
-            v = self._judge(c)
+            v = self_judge(c)
             res.note_case(("case", key))
             if v is not None:
                 self._fail(ctx, res, c, v)
@@ -1007,7 +1276,7 @@ class C03(Prop):
             stride = max(1, steps // ctx.scale(250, 1200))
             for k in range(1, steps, stride):
                 c2 = dict(c, policy="pct", change_points=[k], extra_trace=True)
-                v = self._judge(c2)
+                v = self_judge(c2)
                 res.note_case(("sweep", repr(c["scn"]), c["seed"], k))
                 res.count("search_sweep_runs")
                 if v is not None:
@@ -1016,7 +1285,7 @@ class C03(Prop):
             # 3. random schedules on the same scenario
             for j in range(ctx.scale(150, 600)):
                 c2 = dict(c, seed=f"{c['seed']}/r{j}", policy="weighted" if j % 2 else "pct", change_points=None)
-                v = self._judge(c2)
+                v = self_judge(c2)
                 res.note_case(("rand", repr(c["scn"]), c2["seed"]))
                 res.count("search_random_runs")
                 if v is not None:
